@@ -14,7 +14,7 @@ from .programs import Built, as_int_list
 
 class MtlRun:
     def __init__(self, scn: dict, rng: random.Random, dtype=torch.float64, aggregator=None,
-                 retain: bool = True, chunk="scn", presentations=PRESENTATIONS):
+                 retain: bool = True, chunk="scn", presentations=PRESENTATIONS, hook_scale=None):
         from torchjd import mtl_backward
         from torchjd.aggregation import Constant
 
@@ -33,7 +33,7 @@ class MtlRun:
         self.before_vals = B.flat_vals()
         self.before_grads = {l: B.grad_flat(l) for l in self.leaves}
         w = torch.tensor([float(v) for v in scn["w"]], dtype=dtype)
-        self.agg = recording(aggregator if aggregator is not None else Constant(w))
+        self.agg = recording(aggregator if aggregator is not None else Constant(w), hook_scale=hook_scale)
         k = scn["k"] if chunk == "scn" else chunk
         sh = list(self.shared)
         rng.shuffle(sh)
@@ -88,6 +88,8 @@ class MtlRun:
             return ([] if len(self.agg.calls) == 0 else ["aggregator called although there is no shared parameter"]), []
         if len(self.agg.calls) != 1:
             return [f"aggregator called {len(self.agg.calls)} times"], []
+        if "final" not in self.agg.calls[0]:
+            return ["the aggregator was not invoked through aggregator(J) (Module.__call__): its forward hooks did not run"], []
         m = self.agg.calls[0]["matrix"]
         rows = len(self.losses)
         found = []
@@ -104,7 +106,9 @@ class MtlRun:
         """shared parameters received their own slices of whatever the aggregator returned."""
         if not self.shared:
             return []
-        outv = self.agg.calls[0]["out"].reshape(-1)
+        if "final" not in self.agg.calls[0]:
+            return ["the aggregator was not invoked through aggregator(J) (Module.__call__): its forward hooks did not run"]
+        outv = self.agg.calls[0]["final"].reshape(-1)
         if not bool(torch.isfinite(outv).all()):
             return []          # a non-finite aggregation (degenerate matrix for that aggregator) says nothing about slicing
         sizes = {l: self.scn["prog"][l - 1]["size"] for l in self.shared}
